@@ -14,7 +14,7 @@
    resolution; a repeated draw is byte-identical to the first. *)
 From Coq Require Import List NArith Bool FMapPositive.
 From SNT Require Export Base.Report Base.Outcome Image.KDTree Image.Octree Image.Quantize Image.Sixel
-     Image.SixelDraw Image.SixelCache Image.SixelFast Image.SrgbSpec Gen.TabSixel.
+     Image.SixelDraw Image.SixelCache Image.SixelFast Image.SixelFastProofs Image.SrgbSpec Gen.TabSixel.
 Import ListNotations.
 Local Open Scope N_scope.
 
@@ -72,7 +72,7 @@ Definition first_draw_holds (rows : list (list spx)) (impl : list N) : bool :=
     | None => false
     | Some p =>
         picture_ok_fast w h p &&
-        (if (if sample_of (sixel_eff rows) 256 <? 2 then distinct100 rows <=? 256 else false)
+        (if (if sample_of (sixel_eff rows) 256 <? 2 then distinct100_fast rows <=? 256 else false)
          then picture_eq_fast w (sixel_src100 rows) p else true)
     end.
 
